@@ -640,6 +640,8 @@ _SEED_RULE = {
     "C02-todense-order-rows-only": "state-network", "C04-update-ms-drops-sigma-for-left-mpo": "absorb-direction", "C05-svd-qn-two-sort-orders": "svd-sort",
     "C07-entropy-dm-transpose-symmetrised": "observable-cache", "C09-fehlberg5-digit-typo": "tableau-order", "C10-exact-propagator-gs-excited-frequency": "exact-propagator",
     "C11-ttns-add-left-dtype": "direct-sum", "C13-vmf-imag-time-in-place": "effect-bound", "C16-sinedvr-endpoint-grid-shift": "sinedvr-grid", "C17-jw-swap-real-factor-array": "factor-dtype",
+    "C01-one-term-builder-drops-swap-coefficient": "builder-exact", "C03-conj-returns-self-for-real": "adjoint", "C06-random-last-site-component-sum": "sector-constructor",
+    "C08-iterative-matvec-without-inverse": "inverse-sibling", "C12-regularized-inversion-no-conjugate": "pack-unpack", "C14-dump-real-part-of-real-valued-tensors": "chain-round-trip",
 }
 _sd = _os.path.join(_V, "seeded")
 for _name in sorted(_os.listdir(_sd)):
